@@ -540,8 +540,22 @@ impl Prop for C04 {
         stats.inc(&format!("stratum:{section}/{}", case.kind.letter()));
         stats.inc("judged");
         let (j, o) = judge(&case, stats);
+        if index % 40 == 7 {
+            if let Some(o) = &o {
+                let (fs, _) = case.build();
+                let real = crate::xval::real_result(&fs, &case.bases(), "w/root.scss", "root.scss", Fmt::default(), &format!("c04-{index}"));
+                stats.inc("probe:stub_validated_against_real");
+                if real != o.res {
+                    stats.inc("xval_mismatch");
+                    stats.sample(8, || json!({"xval_mismatch": true, "index": index, "sim": o.res.short(), "real": real.short()}));
+                }
+            }
+        }
         if let Some(o) = &o {
-            stats.nontrivial(o.history_digest());
+            // distinct = distinct (layout, load statement) configurations with their observed result
+            let mut d = vcommon::Digest::new();
+            d.str(&serde_json::to_string(&case).unwrap()).str(&o.res.short());
+            stats.nontrivial(d.finish());
             if index % 997 == 0 || index >= SINGLE + PLAIN {
                 stats.sample(5, || {
                     let (fs, _) = case.build();
@@ -600,7 +614,7 @@ impl Prop for C04 {
         crate::core::world_a_extra(stats)
     }
     fn rule(&self) -> String {
-        format!("Runs 0..{SINGLE} enumerate exhaustively every subset of the candidate files in the importer's directory (2^6 for @use, 2^6 for @forward, 2^10 for @import) x importer at the root / in a sub-directory x url `u` / `s/u`; the next {PLAIN} runs enumerate the plain-CSS @import forms with and without a matching file; (thorough only) the next {TWO_LOC_USE} enumerate every subset pair over importer directory x first load path for @use; the remaining runs sample subsets over importer directory, root directory, up to two load paths and decoy directories from the seed. Each case is compiled by the real library through SimLoader; the file whose marker appears must be the winner under at least one admissible reading of the rule (location-major / candidate-major, pairwise / grouped import-only order, root directory counted as load path or not). Non-trivial = every run (each has at least one lookup); distinct = distinct digests of (loader event history, result).")
+        format!("Runs 0..{SINGLE} enumerate exhaustively every subset of the candidate files in the importer's directory (2^6 for @use, 2^6 for @forward, 2^10 for @import) x importer at the root / in a sub-directory x url `u` / `s/u`; the next {PLAIN} runs enumerate the plain-CSS @import forms with and without a matching file; (thorough only) the next {TWO_LOC_USE} enumerate every subset pair over importer directory x first load path for @use; the remaining runs sample subsets over importer directory, root directory, up to two load paths and decoy directories from the seed. Each case is compiled by the real library through SimLoader; the file whose marker appears must be the winner under at least one admissible reading of the rule (location-major / candidate-major, pairwise / grouped import-only order, root directory counted as load path or not). Non-trivial = every run (each has at least one lookup); distinct = distinct (layout, load statement, result) configurations. Every 40th run is also materialised on the real file system and compiled through the real FsLoader; the result must equal the simulated one (probe stub_validated_against_real).")
     }
     fn assumptions(&self) -> Vec<String> {
         vec![
@@ -612,7 +626,14 @@ impl Prop for C04 {
     fn sanity(&self, stats: &Stats, _tier: Tier) -> Vec<String> {
         let mut errs = vec![];
         let runs = stats.c.get("runs");
+        if stats.c.get("xval_mismatch") > 0 {
+            errs.push(format!(
+                "{} layouts gave different results through SimLoader and through the real FsLoader (the stub misrepresents the file system)",
+                stats.c.get("xval_mismatch")
+            ));
+        }
         for p in [
+            "probe:stub_validated_against_real",
             "probe:import_only_file_won",
             "probe:css_file_won",
             "probe:index_file_won",
